@@ -173,6 +173,11 @@ func zzC17_load() {
 		// by code
 		got, gerr := p.FindAVPWithVendor(qApp, qCode, qVendor)
 		want := zzRefFind(defs, qApp, qCode, "", false, qVendor)
+		vObserve("bycode.found", zzB2U(gerr == nil))
+		if got != nil {
+			vObserve("bycode.vendor", uint64(got.VendorID))
+			vObserveBytes("bycode.name", []byte(got.Name))
+		}
 		if want != nil {
 			vAssert(gerr == nil && got != nil, "lookup by code resolves when the application, a parent or base defines the code")
 			vAssert(zzSameDef(got, want), "lookup by code yields the definition of the application, else its parents, else base; exact vendor or wildcard; latest wins")
@@ -185,6 +190,10 @@ func zzC17_load() {
 		prevByCode = gerr == nil
 		// by name
 		gotn, nerr := p.FindAVPWithVendor(qApp, qName, qVendor)
+		vObserve("byname.found", zzB2U(nerr == nil))
+		if gotn != nil {
+			vObserve("byname.code", uint64(gotn.Code))
+		}
 		wantn := zzRefFind(defs, qApp, 0, qName, true, qVendor)
 		if wantn != nil {
 			vAssert(nerr == nil && gotn != nil, "lookup by name resolves when the application, a parent or base defines the name")
